@@ -23,7 +23,7 @@ pub(crate) use libc::venv::__clear_cache;
 
 R4_ARM64 = '''
 // [verif-mount R4] accessor for the module-private entry encoder
-#[cfg(feature = "priv_access")]
+#[cfg(feature = "@PRIV@")]
 pub(crate) mod __verif_access {
     use crate::injector_core::common::*;
     pub(crate) fn apply(src: FuncPtrInternal, jit: *mut u8, size: usize, orig: &[u8]) -> PatchGuard {
@@ -34,7 +34,7 @@ pub(crate) mod __verif_access {
 
 R4_AMD64 = '''
 // [verif-mount R4] accessors for the module-private encoder entry points
-#[cfg(feature = "priv_access")]
+#[cfg(feature = "priv_amd64")]
 pub(crate) mod __verif_access {
     use crate::injector_core::common::*;
     pub(crate) fn branch(ori: usize, target: usize) -> Vec<u8> {
@@ -80,8 +80,18 @@ def mount_variant(repo, variant, dst, access_path, counts):
             raw = open(full, "rb").read()
             hashes[rel] = sha(raw)
             text = raw.decode("utf-8")
-            # R1: let the aarch64 / arm back-ends compile on the x86-64 host
-            text, n = CFG_ARCH.subn(lambda m: "// [verif-mount R1] " + m.group(0).strip(), text, count=1)
+            # R1: let the aarch64 / arm back-ends compile on the x86-64 host -- each behind a cargo
+            # feature of the harness crate ("seam"), so that a back-end that stops compiling on the
+            # host costs that back-end's sub-domain only, never the whole build
+            def r1(m, rel=rel):
+                if m.group(1) == "arm":
+                    feat = 'feature = "seam_arm32"'
+                elif os.path.basename(rel) == "patch_arm64.rs":
+                    feat = 'feature = "seam_arm64"'
+                else:
+                    feat = 'any(feature = "seam_arm64", feature = "seam_macsim", feature = "seam_macenc")'
+                return f"#![cfg({feat})] // [verif-mount R1] was: " + m.group(0).strip()[3:]
+            text, n = CFG_ARCH.subn(r1, text, count=1)
             counts["R1"] = counts.get("R1", 0) + n
             # shimmed leaf: linuxapi.rs
             if rel == os.path.join("injector_core", "linuxapi.rs"):
@@ -109,7 +119,7 @@ def mount_variant(repo, variant, dst, access_path, counts):
                 counts["R5"] = counts.get("R5", 0) + n5a + n5b
             # R4: accessors for module-private encoder entry points (only compiled with feature priv_access)
             if rel == os.path.join("injector_core", "patch_arm64.rs"):
-                text = text.rstrip("\n") + "\n" + R4_ARM64
+                text = text.rstrip("\n") + "\n" + R4_ARM64.replace("@PRIV@", "priv_arm64")
                 counts["R4"] = counts.get("R4", 0) + 1
             if rel == os.path.join("injector_core", "patch_amd64.rs"):
                 text = text.rstrip("\n") + "\n" + R4_AMD64
@@ -117,16 +127,16 @@ def mount_variant(repo, variant, dst, access_path, counts):
             if rel == "lib.rs":
                 text = text.rstrip("\n") + "\n\n// [verif-mount] harness access module\n" \
                     + f'#[path = "{access_path}"]\npub mod vaccess;\n' \
-                    + '#[path = "injector_core/patch_arm64_macsim.rs"]\npub(crate) mod patch_arm64_macsim;\n'
+                    + '#[cfg(feature = "seam_macsim")]\n#[path = "injector_core/patch_arm64_macsim.rs"]\npub(crate) mod patch_arm64_macsim;\n'
             wanted.add(rel)
             write_if_changed(os.path.join(dst, rel), text)
     # R3b: a second copy of patch_arm64.rs with the macOS branch of apply_branch_patch selected
     p64 = os.path.join(src_root, "injector_core", "patch_arm64.rs")
     if os.path.isfile(p64):
         text = open(p64).read()
-        text = CFG_ARCH.sub(lambda m: "// [verif-mount R1] " + m.group(0).strip(), text, count=1)
+        text = CFG_ARCH.sub(lambda m: '#![cfg(feature = "seam_macsim")] // [verif-mount R1] was: ' + m.group(0).strip()[3:], text, count=1)
         text = text.replace('not(target_os = "macos")', 'any()').replace('target_os = "macos"', 'all()')
-        text = text.rstrip("\n") + "\n" + R4_ARM64
+        text = text.rstrip("\n") + "\n" + R4_ARM64.replace("@PRIV@", "priv_macsim")
         rel = os.path.join("injector_core", "patch_arm64_macsim.rs")
         wanted.add(rel)
         write_if_changed(os.path.join(dst, rel), text)
